@@ -652,6 +652,9 @@ class DAGRunConcurrentManager(DAGRunManagerLike):
         to_unlock_descendants = True
 
         try:
+            # If the node has been executed by another DAG, this call only waits for its result
+            executed_here = not self._node_storage.exists_processed_node(node_id)
+
             result = await self._execute_node(
                 force_default=force_default,
                 node_id=node_id,
@@ -677,7 +680,10 @@ class DAGRunConcurrentManager(DAGRunManagerLike):
             self._node_storage.set_node_result(node_id, result)
 
             # TODO: Needs to reorganize saving policy for artifact storage
-            await self.ctx.save_node_result(node_id, result)
+            # Only a real value is an artifact of the node (neither a restart marker nor an error contained by OneOf),
+            # and it is saved by the task that has executed the node.
+            if executed_here and not isinstance(result, (Recurrent, BaseException)):
+                await self.ctx.save_node_result(node_id, result)
 
         finally:
             if not to_unlock_descendants:
